@@ -322,7 +322,7 @@ def r8(ctx, R):
     ok = all(p in got for p in want_pairs) and len(got) == 3
     R.check(ok, 'StepSizeSlopeLimiter :: ratio below slope_min -> dt*slope_min ; above slope_max -> dt*slope_max', w, want_pairs, got)
     third = [c for c in N.contribs if c.target == 'L.status.dt_new' and c.rhs == 'L.params.dt']
-    ok = len(third) == 1 and 'abs(L.status.dt_new / L.params.dt - 1) < self.params.dt_rel_min_slope' in third[0].guards[-1] and 'not S.status.restart' in third[0].guards[-1]
+    ok = len(third) == 1 and 'abs(L.status.dt_new / L.params.dt - 1) < self.params.dt_rel_min_slope' in third[0].guards[-1] and re.search(r'not S\.status\.restart(?![\w.])', third[0].guards[-1]) is not None
     R.check(ok, 'StepSizeSlopeLimiter :: insignificant changes keep dt, but never for a step that restarts', w, 'dt_new = dt if |ratio-1| < dt_rel_min_slope and not restart', [c.describe() for c in third])
 
 
